@@ -23,7 +23,7 @@ PROPS = {
     'C15': {'units': ['shape'], 'kani': []},
     'C13': {'units': ['sym'], 'kani': []},
     'C09': {'units': ['prep'], 'kani': []},
-    'C08': {'units': ['mmcs', 'hash'], 'kani': []},
+    'C08': {'units': ['mmcs', 'hash', 'mbind'], 'kani': []},
     'C16': {'units': ['meta'], 'kani': []},
     'C11': {'units': ['air', 'alu', 'run19'], 'kani': [], 'only': {'run19': r'execute_alu_op'}},
 }
@@ -153,7 +153,10 @@ META['C08'] = {
             'remaining index bits (invariant over the halving layers: layer k entry m is cap[m*2^k + low-k-bits index]), with every index in bounds; and, for every number of extension elements, '
             'rate and width, that add_hash_extension_elements returns targets whose values are the native PaddingFreeSponge digest of the row (invariant over the chunks: the table row state equals '
             'the native sponge state after i chunks; the permutation row reads exactly the native absorbed state: chunk values, previous rate outputs on a partial non-first chunk, chained capacity).',
-    'note': 'Not under contract: add_hash_base_coeffs_overwrite (base-coefficient route; assumed callee of the D=1-in-extension branch), path compression rows and direction bits, arity-4 schedules '
+    'note': 'Soundness side (unit mbind + one obligation in hash): the values add_mmcs_verify and the leaf hasher hand to a permutation row must be tied to that row by the table; '
+            'the table facts are spec predicates transcribed from the AIR/executor text and the obligations FAIL on the unchanged tree: KNOWN FINDINGS C08-leaf-hash-capacity-free, '
+            'C08-merkle-row-given-limbs-unbound, C08-merkle-direction-bit-unbound (forged proofs in findings/C08_mmcs_unbound_test.rs). '
+            'Not under contract: add_hash_base_coeffs_overwrite (base-coefficient route; assumed callee of the D=1-in-extension branch), path compression rows and direction bits, arity-4 schedules '
             '(itertools-heavy), the MMCS executor, and the iff with the native Merkle verifier. Assumed: one permutation row = permute(bus-read limbs, zero on chain start / previous row output for omitted '
             'limbs) (executor semantics; C06 examines enforcement); native sponge transcribed; reset = true as at all call sites; single-chunk merkle_seed rows unspecified. select_cap_entry '
             'preconditions: |cap| = 2^|bits|, equal row widths (the debug_assert in the code), boolean bits.',
